@@ -12,7 +12,14 @@ Search: the property stated on the implementation (no model): other dimensions k
 extra bytes, exactly one extra-bytes VLR describing the current dimensions in order iff there are any (descriptors parsed with
 struct from the ASPRS layout), round trip keeps names / types / scales / offsets / values / VLRs, a bad removal raises
 LaspyException and changes nothing; a whole-record assignment of a record of the same format reads back byte for byte, keeps format
-and VLRs, and the adds / removes after it behave as ever; a record of a different format is refused and changes nothing."""
+and VLRs, and the adds / removes after it behave as ever; a record of a different format is refused and changes nothing.
+Round 3: histories also START from a format that already carries extra dimensions (laspy.create(point_format=fmt),
+LasHeader(point_format=fmt); VLRs appended or assigned through the setter) and from the argument-less laspy.create() / LasHeader(),
+optionally next to a sibling LasData built the same way (which must not be affected, nor affect the initial state); they contain
+laspy.convert to any point format / version (extra dimensions with scales, offsets, descriptions, order, raw values and the VLR
+survive; the source is untouched; model op Convert), round trips through laspy.open(mode="w") in chunks, and re-reads of files whose
+extra-bytes VLR registers only the first k dimensions or is absent (model op Reread: the un-registered trailing bytes become ONE opaque
+"ExtraBytes" dimension of exactly that many bytes; the next add / remove / convert registers it)."""
 import io
 import struct
 
@@ -28,6 +35,14 @@ ASSUMPTIONS = [
     "names and descriptions are byte strings of 1..32 / 0..32 bytes without NUL (the generator uses ASCII and some multi-byte UTF-8)",
     "that a LAS file carries the point size, the VLR payloads and the point bytes verbatim is C01/C07/C08; the round trip of this model "
     "starts from (format id, point size, VLR list, record bytes)",
+    "what laspy.convert makes of the STANDARD dimensions is C12: the model's Convert takes the converted standard blocks as a parameter "
+    "(theorems quantify over all blocks; the correspondence passes the blocks laspy produced; the generator gives the points standard "
+    "bytes every format can hold, so that no conversion is refused for a value that does not fit); the oracle still checks that "
+    "standard dimensions both formats have keep their values",
+    "a truncated re-read leaves at most 255 un-registered bytes (the property speaks of opaque arrays of 4..255 bytes) and the name "
+    "'ExtraBytes' it introduces is not a registered dimension already (hypothesis op_okb of the theorems; generator-enforced)",
+    "two LasData built from ONE PointFormat object the caller passes to both (laspy.create(point_format=fmt) twice with the same fmt) "
+    "are not generated: every construction gets its own PointFormat",
     "scaled values are compared as the stored raw bytes and scales/offsets as binary64 bit patterns; float presentation is C11",
     "a record assigned as a whole (las.points = r) either has exactly the extra dimensions of the LasData (bit-identical, or -0.0 for 0.0 "
     "among the offsets) or differs from them in something PointFormat.__eq__ looks at; DimensionInfo.__eq__ compares kind and total bits "
@@ -298,6 +313,60 @@ def rand_set_points(rng, fmt, shadow, cur, reserved, source=None, mismatch=None)
     return op
 
 
+UNREG_NAME = b"ExtraBytes"
+UNREG_DESC = b"Un-registered ExtraBytes"
+BUILDS = ["header_record", "header_record", "header_fmt", "create_fmt", "create_int"]
+SAFE_STD = [0, 0, 1, 2, 3]      # standard bytes whose every field fits every other point format (conversion cannot misfit)
+
+
+def unreg_dim(n):
+    """the dimension the reader makes of n bytes no descriptor registers (1..3 bytes: numpy gives a documented uint8 type)"""
+    return {"name": hx(UNREG_NAME), "type": ["o", n] if n > 3 else ["s", {1: 1, 2: 11, 3: 21}[n]], "scale": None, "desc": hx(UNREG_DESC)}
+
+
+def reread_effect(shadow, reg, keep):
+    """what reading a file whose extra-bytes VLR keeps only its first `keep` descriptors (None: no such VLR) makes of the
+    dimensions: (new dimensions, what the VLR registers afterwards: None = everything, k = the first k, "absent" = no VLR);
+    `reg` says what the VLR registers now"""
+    n_reg = len(shadow) if reg is None else (0 if reg == "absent" else reg)
+    has_vlr = (reg is None and bool(shadow)) or isinstance(reg, int)
+    if keep is None:
+        k_eff, has_vlr = 0, False
+    else:
+        k_eff = min(keep, n_reg)
+    kept, rest = shadow[:k_eff], shadow[k_eff:]
+    if not rest:
+        return list(shadow), None
+    return kept + [unreg_dim(sum(type_size(tuple(d["type"])) for d in rest))], (k_eff if has_vlr else "absent")
+
+
+def rand_reread(rng, shadow, reg):
+    """a re-read the model's hypothesis allows: the invented name 'ExtraBytes' is new, at most 255 bytes stay un-registered"""
+    n_reg = len(shadow) if reg is None else (0 if reg == "absent" else reg)
+    cands = [None] + list(range(n_reg + 2))
+    rng.shuffle(cands)
+    for keep in cands:
+        k_eff = 0 if keep is None else min(keep, n_reg)
+        kept, rest = shadow[:k_eff], shadow[k_eff:]
+        if rest and (any(d["name"] == hx(UNREG_NAME) for d in kept) or not 1 <= sum(type_size(tuple(d["type"])) for d in rest) <= 255):
+            continue
+        return {"op": "reread", "keep": keep, "via": rng.choice(["write", "write", "writer"])}
+    return None
+
+
+def rand_convert(rng, curfmt, curver):
+    g = rng.choice([curfmt, rng.randrange(11), rng.randrange(11)])
+    ver = None
+    if rng.random() < 0.3:
+        ver = rng.choice([v for v in lasio.VERSIONS if g in lasio.COMPAT[v]])
+    return {"op": "convert", "fmt": g, "version": ver}
+
+
+def version_after_convert(curver, g, ver):
+    import laspy.point.dims as dims
+    return ver or max(curver, dims.preferred_file_version_for_point_format(g))
+
+
 def rand_vlrs(rng):
     out = []
     for _ in range(rng.choice([0, 0, 1, 2, 3])):
@@ -308,30 +377,76 @@ def rand_vlrs(rng):
     return out
 
 
-def gen_history(rng, reserved, fmt=None, steps=None, npts=None, plan=None):
-    """a history: header parameters, initial standard bytes, VLRs, and up to 12 operations ending with a round trip.
-    `plan` (optional) is a list of forced first operations given as callables(shadow, current number of points) -> op."""
+def gen_history(rng, reserved, fmt=None, steps=None, npts=None, plan=None, build=None, init=None, sibling=None):
+    """a history: how the LasData is built (header parameters, the extra dimensions its PointFormat carries from the start, the bytes
+    of its points, VLRs and how they are installed, an optional sibling LasData built the same way), and up to 12 operations ending
+    with a round trip.  `plan` (optional) is a list of forced first operations given as callables(shadow, current number of points) -> op."""
     fmt = rng.randrange(11) if fmt is None else fmt
     ver = rng.choice([v for v in lasio.VERSIONS if fmt in lasio.COMPAT[v]])
+    if build is None:
+        build = rng.choice(BUILDS)
+        if fmt == 3 and rng.random() < 0.5:
+            build = rng.choice(["default_create", "default_header"])
+    if build.startswith("default"):
+        fmt, ver = 3, "1.2"
     npts = rng.choice([0, 1, 2, 3, 5, 17]) if npts is None else npts
-    h = {"version": ver, "fmt": fmt, "npts": npts, "std": hx(rand_std(rng, fmt, npts)), "vlrs": rand_vlrs(rng), "ops": [],
-         "own_format": rng.random() < 0.5}      # LasData(header, record) with a record that carries its own PointFormat object
     shadow = []      # current extra dimensions as the property expects them
+    if build in ("header_fmt", "create_fmt"):
+        used = set()
+        for _ in range(rng.choice([0, 1, 1, 2, 3]) if init is None else init):
+            d = rand_dim(rng, used, reserved)
+            used.add(bytes.fromhex(d["name"]).decode())
+            shadow.append(d)
+    if sibling is None and rng.random() < (0.6 if build.startswith("default") else 0.15):
+        sibling = rng.choice(["older", "younger"])
+    sib = None
+    if sibling:
+        used = {bytes.fromhex(d["name"]).decode() for d in shadow}
+        d1 = rand_dim(rng, used, reserved)
+        d2 = rand_dim(rng, used | {bytes.fromhex(d1["name"]).decode()}, reserved)
+        sops = [{"op": "add", "dims": [d1, d2], "single": False}]
+        if rng.random() < 0.4:
+            sops.append({"op": "remove", "names": [rng.choice([d1, d2])["name"]], "single": True})
+        sib = {"when": sibling, "ops": sops if sibling == "older" else []}
+    h = {"version": ver, "fmt": fmt, "npts": npts, "build": build, "init_dims": [dict(d) for d in shadow],
+         "raw": hx(rand_records(rng, fmt, shadow, npts)), "vlrs": rand_vlrs(rng), "vlr_install": rng.choice(["append", "append", "setter"]),
+         "sibling": sib, "ops": [],
+         "own_format": rng.random() < 0.5}      # LasData(header, record) with a record that carries its own PointFormat object
     steps = rng.choice([2, 4, 6, 8, 11]) if steps is None else steps
     import laspy.point.dims as dims
-    std_names = list(std_dtype(fmt).names) + [s.name for subs in dims.COMPOSED_FIELDS[fmt].values() for s in subs]
     queue = list(plan or [])
     cur = npts       # whole-record assignments change the number of points
+    curfmt, curver = fmt, ver     # conversions change the point format and may raise the version
+    reg = None       # what the extra-bytes VLR registers: None = every dimension, k = the first k, "absent" = there is no VLR
     while len(h["ops"]) < steps:
+        std_names = list(std_dtype(curfmt).names) + [s.name for subs in dims.COMPOSED_FIELDS[curfmt].values() for s in subs]
         if queue:
             op = queue.pop(0)(shadow, cur)
             if op is None:
                 continue
+            if callable(op):       # needs the tracked state: (shadow, cur, curfmt, curver, reg) -> op
+                op = op(shadow, cur, curfmt, curver, reg)
+                if op is None:
+                    continue
         else:
             k = rng.random()
             used = {bytes.fromhex(d["name"]).decode() for d in shadow}
-            if rng.random() < 0.11:
-                op = rand_set_points(rng, fmt, shadow, cur, reserved, mismatch=rng.choice(MISMATCHES) if rng.random() < 0.2 else None)
+            k0 = rng.random()
+            if k0 < 0.11:
+                op = rand_set_points(rng, curfmt, shadow, cur, reserved, mismatch=rng.choice(MISMATCHES) if rng.random() < 0.2 else None)
+            elif k0 < 0.19:
+                op = rand_convert(rng, curfmt, curver)
+                if op["fmt"] != curfmt and len(h["ops"]) < steps - 1:
+                    h["ops"].append({"op": "assign_std", "size": std_dtype(curfmt).itemsize,
+                                     "raw": hx(bytes(rng.choice(SAFE_STD) for _ in range(std_dtype(curfmt).itemsize * cur))), "safe": True})
+                elif op["fmt"] != curfmt:
+                    op["fmt"] = curfmt
+                    if op["version"] is not None and curfmt not in lasio.COMPAT[op["version"]]:
+                        op["version"] = None
+            elif k0 < 0.25 and shadow:
+                op = rand_reread(rng, shadow, reg)
+                if op is None:
+                    continue
             elif k < 0.36 or (not shadow and k < 0.7):
                 dims_ = []
                 for _ in range(rng.choice([1, 1, 1, 2, 3])):
@@ -348,9 +463,9 @@ def gen_history(rng, reserved, fmt=None, steps=None, npts=None, plan=None):
                 op = {"op": "assign", "name": d["name"], "size": type_size(tuple(d["type"])),
                       "raw": hx(rand_values(rng, tuple(d["type"]), d["scale"] is not None, cur))}
             elif k < 0.76:
-                op = {"op": "assign_std", "size": std_dtype(fmt).itemsize, "raw": hx(rand_std(rng, fmt, cur))}
+                op = {"op": "assign_std", "size": std_dtype(curfmt).itemsize, "raw": hx(rand_std(rng, curfmt, cur))}
             elif k < 0.86:
-                op = {"op": "roundtrip"}
+                op = {"op": "roundtrip", "via": rng.choice(["write", "write", "writer"])}
             else:
                 good = [d["name"] for d in shadow]
                 bad_kind = rng.choice(["standard", "unknown", "duplicate", "empty"]) if good else rng.choice(["standard", "unknown", "empty"])
@@ -375,11 +490,19 @@ def gen_history(rng, reserved, fmt=None, steps=None, npts=None, plan=None):
         h["ops"].append(op)
         if op["op"] == "add":
             shadow.extend(op["dims"])
+            reg = None
         elif op["op"] == "remove" and remove_is_valid(shadow, op["names"]):
             shadow[:] = [d for d in shadow if d["name"] not in op["names"]]
+            reg = None
         elif op["op"] == "set_points" and not op.get("mismatch"):
             cur = op["npts"]
-    h["ops"].append({"op": "roundtrip"})
+        elif op["op"] == "convert":
+            curver = version_after_convert(curver, op["fmt"], op["version"])
+            curfmt = op["fmt"]
+            reg = None
+        elif op["op"] == "reread":
+            shadow[:], reg = reread_effect(shadow, reg, op["keep"])
+    h["ops"].append({"op": "roundtrip", "via": rng.choice(["write", "writer"])})
     return h
 
 
@@ -391,15 +514,65 @@ def remove_is_valid(shadow, names):
 # ---------------------------------------------------------------------------------
 # running a history on the implementation
 # ---------------------------------------------------------------------------------
-def make_las(h):
+def init_dims_of(h):
+    return h.get("init_dims", [])
+
+
+def init_raw_of(h):
+    return h["raw"] if "raw" in h else h["std"]       # histories of the earlier rounds: standard bytes only
+
+
+def make_las(h, sibling=False):
+    """the LasData a history starts from, built the way h['build'] says; a sibling is built the same way (own PointFormat object,
+    one zeroed point, no foreign VLRs)"""
     import laspy
-    hdr = laspy.LasHeader(version=h["version"], point_format=h["fmt"])
-    for u, r, d, p in h["vlrs"]:
-        hdr.vlrs.append(laspy.VLR(user_id=bytes.fromhex(u).decode(), record_id=r, description=bytes.fromhex(d).decode(), record_data=bytes.fromhex(p)))
-    dt = std_dtype(h["fmt"])
-    arr = np.frombuffer(bytes.fromhex(h["std"]), dtype=dt).copy() if h["npts"] else np.zeros(0, dt)
-    pts = laspy.PackedPointRecord(arr, laspy.PointFormat(h["fmt"]) if h.get("own_format") else hdr.point_format)
-    return laspy.LasData(hdr, pts)
+    build = h.get("build", "header_record")
+    fmt, ver = h["fmt"], h["version"]
+
+    def point_format():
+        pf = laspy.PointFormat(fmt)
+        for d in init_dims_of(h):
+            pf.add_extra_dimension(mk_param(d))
+        return pf
+
+    if build == "header_record":
+        hdr = laspy.LasHeader(version=ver, point_format=fmt)
+    elif build == "header_fmt":
+        hdr = laspy.LasHeader(version=ver, point_format=point_format())
+    elif build == "default_header":
+        hdr = laspy.LasHeader()
+    elif build == "create_fmt":
+        las = laspy.create(point_format=point_format(), file_version=ver)
+    elif build == "create_int":
+        las = laspy.create(point_format=fmt, file_version=ver)
+    elif build == "default_create":
+        las = laspy.create()
+    else:
+        raise ValueError("unknown build " + build)
+    vlrs = [] if sibling else [laspy.VLR(user_id=bytes.fromhex(u).decode(), record_id=r, description=bytes.fromhex(d).decode(), record_data=bytes.fromhex(p))
+                               for u, r, d, p in h["vlrs"]]
+    npts = 1 if sibling else h["npts"]
+    if build in ("header_record", "header_fmt", "default_header"):
+        if h.get("vlr_install") == "setter":
+            hdr.vlrs = vlrs
+        else:
+            for v in vlrs:
+                hdr.vlrs.append(v)
+        own = point_format() if h.get("own_format") and not sibling else hdr.point_format
+        dt = own.dtype()
+        arr = np.zeros(npts, dt) if sibling or not npts else np.frombuffer(bytes.fromhex(init_raw_of(h)), dtype=dt).copy()
+        return laspy.LasData(hdr, laspy.PackedPointRecord(arr, own))
+    if h.get("vlr_install") == "setter":
+        las.vlrs = vlrs
+    else:
+        for v in vlrs:
+            las.vlrs.append(v)
+    if npts or h.get("own_format"):
+        rec = laspy.ScaleAwarePointRecord.zeros(npts, header=las.header)
+        if npts and not sibling:
+            rec.array[...] = np.frombuffer(bytes.fromhex(init_raw_of(h)), dtype=rec.array.dtype)
+        las.points = rec
+    return las
 
 
 def mk_param(d):
@@ -451,9 +624,33 @@ def build_record(las, op):
     return rec
 
 
-def apply_op(las, op):
-    """returns (las, status)"""
+def write_read(las, via, rng_chunks=None):
+    """las -> file bytes -> LasData, through LasData.write or through laspy.open(mode="w") + write_points in chunks"""
     import laspy
+    bio = io.BytesIO()
+    if via == "writer":
+        n = len(las.points)
+        cuts = sorted({0, n, n // 3, (2 * n + 2) // 3})
+        with laspy.open(bio, mode="w", header=las.header, closefd=False) as w:
+            for a_, b_ in zip(cuts, cuts[1:]):
+                w.write_points(las.points[a_:b_])
+    else:
+        las.write(bio)
+    return laspy.read(io.BytesIO(bio.getvalue()))
+
+
+def same_values(a, b):
+    a, b = np.asarray(a), np.asarray(b)
+    return (a.dtype == b.dtype and a.shape == b.shape and a.tobytes() == b.tobytes()) or np.array_equal(a, b)
+
+
+SNAP_KEYS = ("fmt", "extras", "names", "bytes", "vlrs", "hdr_vlrs", "itemsize", "pf_size", "hdr_pf_size", "npts", "same_format")
+
+
+def apply_op(las, op):
+    """returns (las, status, aux) — aux: observations the property speaks about that are not part of the resulting state"""
+    import laspy
+    aux = {}
     try:
         k = op["op"]
         if k == "add":
@@ -487,15 +684,34 @@ def apply_op(las, op):
             try:
                 rec = build_record(las, op)
             except Exception as ex:   # noqa: BLE001 — not the outcome of the assignment itself
-                return las, "err:obtaining the record (" + op["source"] + "):" + common.exc_kind(ex)
+                return las, "err:obtaining the record (" + op["source"] + "):" + common.exc_kind(ex), aux
             las.points = rec
         elif k == "roundtrip":
-            bio = io.BytesIO()
-            las.write(bio)
-            las = laspy.read(io.BytesIO(bio.getvalue()))
-        return las, "ok"
+            las = write_read(las, op.get("via", "write"))
+        elif k == "convert":
+            src = las
+            before = snapshot(src)
+            kw = {"point_format_id": op["fmt"]}
+            if op.get("version"):
+                kw["file_version"] = op["version"]
+            new = laspy.convert(src, **kw)
+            after = snapshot(src)
+            aux["source_changed"] = [c for c in SNAP_KEYS if before[c] != after[c]]
+            new_std = {d.name for d in new.point_format.standard_dimensions}
+            aux["std_changed"] = [d.name for d in src.point_format.standard_dimensions if d.name in new_std and not same_values(src[d.name], new[d.name])]
+            aux["version"] = str(new.header.version)
+            las = new
+        elif k == "reread":
+            # a file whose extra-bytes VLR registers only the first `keep` dimensions, or that has no such VLR
+            ebs = las.vlrs.get("ExtraBytesVlr")
+            if op["keep"] is None:
+                las.vlrs.extract("ExtraBytesVlr")
+            elif ebs:
+                ebs[0].extra_bytes_structs = ebs[0].extra_bytes_structs[:op["keep"]]
+            las = write_read(las, op.get("via", "write"))
+        return las, "ok", aux
     except Exception as ex:   # noqa: BLE001 — canonicalised
-        return las, "err:" + common.exc_kind(ex)
+        return las, "err:" + common.exc_kind(ex), aux
 
 
 def snapshot(las):
@@ -527,11 +743,45 @@ def snapshot(las):
 
 
 def run_impl(h):
-    las = make_las(h)
-    snaps = [("init", snapshot(las))]
+    """snapshots after the construction and after every operation: [(status, snapshot, aux)]; the construction's aux holds the
+    observations about the sibling LasData"""
+    sib, sib0 = None, None
+    spec = h.get("sibling")
+    aux0 = {}
+    try:
+        if spec and spec["when"] == "older":
+            sib = make_las(h, sibling=True)
+            for op in spec["ops"]:
+                sib, st, _ = apply_op(sib, op)
+                if st != "ok":
+                    aux0["sibling_setup"] = st
+            sib0 = snapshot(sib)
+        las = make_las(h)
+        if spec and spec["when"] == "younger":
+            sib = make_las(h, sibling=True)
+            sib0 = snapshot(sib)
+        status = "ok"
+    except Exception as ex:   # noqa: BLE001
+        import laspy
+        las = laspy.LasData(laspy.LasHeader(version=h["version"], point_format=h["fmt"]))
+        status = "err:" + common.exc_kind(ex)
+    snaps = [(status, snapshot(las), aux0)]
     for op in h["ops"]:
-        las, status = apply_op(las, op)
-        snaps.append((status, snapshot(las)))
+        las, status, aux = apply_op(las, op)
+        snaps.append((status, snapshot(las), aux))
+    if sib is not None:
+        aux0["sibling"] = (sib0, snapshot(sib))
+    # after the history: a LasData built the same way must again start as constructed.  Whatever it has beyond that is given back
+    # through the public API, so that what one history leaves behind cannot reach the next one (every failing input stays reproducible
+    # on its own, in a fresh process)
+    try:
+        probe = make_las(h, sibling=True)
+        aux0["fresh_after"] = snapshot(probe)
+        left = [d.name for d in probe.point_format.extra_dimensions][len(init_dims_of(h)):]
+        if left:
+            probe.remove_extra_dims(left)
+    except Exception as ex:   # noqa: BLE001
+        aux0["fresh_after_err"] = common.exc_kind(ex)
     return snaps
 
 
@@ -555,12 +805,31 @@ def op_tok(op):
         return f"T!{op['size']}!x{op['raw']}"
     if k == "set_points":
         return "P!" + ("+".join(dim_tok(d) for d in op["dims"]) or "-") + f"!{op['size']}!x{op['raw']}"
+    if k == "convert":
+        return f"C!{op['fmt']}!{std_dtype(op['fmt']).itemsize}!x{op.get('_std_after', '')}"
+    if k == "reread":
+        return "U!" + ("-" if op["keep"] is None else str(op["keep"]))
     return "W"
+
+
+def observe_converted(h, snaps):
+    """the standard blocks laspy.convert produced (property C12's subject) are an input of the model's Convert"""
+    for op, (status, sn, _) in zip(h["ops"], snaps[1:]):
+        if op["op"] == "convert":
+            size = std_dtype(op["fmt"]).itemsize
+            if status == "ok" and sn["fmt"] == op["fmt"] and sn["itemsize"] >= size:
+                w = sn["itemsize"]
+                op["_std_after"] = hx(b"".join(sn["bytes"][i * w:i * w + size] for i in range(sn["npts"])))
+            else:
+                op["_std_after"] = hx(bytes(size * sn["npts"]))
 
 
 def model_cmd(h):
     vl = "|".join(f"x{u}:{r}:x{d}:x{p}" for u, r, d, p in h["vlrs"]) or "-"
-    return f"hist {h['fmt']} {std_dtype(h['fmt']).itemsize} x{h['std']} {vl} " + ";".join(op_tok(o) for o in h["ops"])
+    dims = init_dims_of(h)
+    size = std_dtype(h["fmt"]).itemsize + sum(type_size(tuple(d["type"])) for d in dims)
+    return (f"hist2 {h['fmt']} " + ("+".join(dim_tok(d) for d in dims) or "-") + f" {size} x{init_raw_of(h)} {vl} "
+            + ("T" if h.get("vlr_install") == "setter" else "F") + " " + ";".join(op_tok(o) for o in h["ops"]))
 
 
 def snap_tokens(status, sn, nstd):
@@ -580,6 +849,10 @@ def snap_tokens(status, sn, nstd):
 
 def op_label(op):
     k = op["op"]
+    if k == "convert":
+        return "convert"
+    if k == "reread":
+        return "re-read of a file whose VLR registers " + ("nothing (no VLR)" if op["keep"] is None else "a prefix of the dimensions")
     if k == "set_points":
         return "whole-record assignment (" + op["source"] + (", other format: " + op["mismatch"] if op.get("mismatch") else "") + ")"
     return k + (" bad " + op["bad"] if op.get("bad") else "")
@@ -589,21 +862,22 @@ COMPONENTS = ["outcome", "point format", "record bytes", "dimension values", "vl
 
 
 def compare(h, snaps, mline):
-    """-> list of (step index, op kind, component) where model and implementation differ"""
+    """-> list of (step index, op kind, component) where model and implementation differ (step -1: the construction)"""
     out = []
     head, _, rest = mline.partition(" ")
     if head != "fresh=T":
         raise RuntimeError("generator produced a history outside the model's hypothesis: " + mline[:80])
     steps = rest.split(";") if rest != "-" else []
-    if len(steps) != len(h["ops"]):
-        return [(0, "protocol", f"model returned {len(steps)} steps for {len(h['ops'])} operations: {mline[:100]}")]
+    if len(steps) != len(h["ops"]) + 1:
+        return [(-1, "protocol", f"model returned {len(steps)} states for {len(h['ops'])} operations: {mline[:100]}", "", "")]
     nstd = len(std_dtype(h["fmt"]).names)
-    for i, (op, mst) in enumerate(zip(h["ops"], steps)):
+    labels = ["initial state" + (" next to a sibling" if h.get("sibling") else "")] + [op_label(o) for o in h["ops"]]
+    for i, mst in enumerate(steps):
         mt = mst.split("@")
-        it = snap_tokens(snaps[i + 1][0], snaps[i + 1][1], nstd)
+        it = snap_tokens(snaps[i][0], snaps[i][1], nstd)
         for c, (a, b) in enumerate(zip(mt, it)):
             if a != b:
-                out.append((i, op_label(op), COMPONENTS[c], a[:160], b[:160]))
+                out.append((i - 1, labels[i], COMPONENTS[c], a[:160], b[:160]))
                 break
         if out:
             break
@@ -632,8 +906,12 @@ def expected_descriptor(d):
             "desc": bytes.fromhex(d["desc"]).ljust(32, b"\0"), "scale": d["scale"]}
 
 
-def check_state(shadow, sn, fmt):
-    """(I2) and (I3) and format = expected dimensions; returns a (kind, text) or None"""
+def check_state(shadow, sn, fmt, reg=None):
+    """(I2) and (I3) and format = expected dimensions; returns a (kind, text) or None.  reg: what the extra-bytes VLR has to
+    register — None: every dimension (I3); k: exactly the first k (a file with un-registered trailing bytes was read and no add /
+    remove / conversion has rebuilt the VLR yet); "absent": that file had no extra-bytes VLR"""
+    if sn["fmt"] != fmt:
+        return ("point format id", f"point format {sn['fmt']}, expected {fmt}")
     std = std_dtype(fmt).itemsize
     exp_size = std + sum(type_size(tuple(d["type"])) for d in shadow)
     if not (sn["itemsize"] == sn["pf_size"] == sn["hdr_pf_size"] == exp_size):
@@ -662,16 +940,17 @@ def check_state(shadow, sn, fmt):
     if sn["vlrs"] != sn["hdr_vlrs"]:
         return ("vlrs", "las.vlrs differs from las.header.vlrs")
     ebs = [v for v, c in zip(sn["vlrs"], sn["eb_class"]) if c or (v[0] == EB_UID and v[1] == EB_RID)]
-    if not shadow:
+    described = shadow if reg is None else [] if reg == "absent" else shadow[:reg]
+    if reg == "absent" or (reg is None and not shadow):
         if ebs:
-            return ("stale extra-bytes VLR", f"{len(ebs)} extra-bytes VLR(s) although there is no extra dimension")
+            return ("stale extra-bytes VLR", f"{len(ebs)} extra-bytes VLR(s) although " + ("there is no extra dimension" if not shadow else "the file had none"))
         return None
     if len(ebs) != 1:
         return ("extra-bytes VLR count", f"{len(ebs)} extra-bytes VLRs for {len(shadow)} extra dimensions")
     v = ebs[0]
-    if v[0] != EB_UID or v[1] != EB_RID or len(v[3]) != 192 * len(shadow):
-        return ("extra-bytes VLR identity", f"user id {v[0]!r} record id {v[1]} payload {len(v[3])} bytes for {len(shadow)} dimensions")
-    for d, got_d in zip(shadow, parse_descriptors(v[3])):
+    if v[0] != EB_UID or v[1] != EB_RID or len(v[3]) != 192 * len(described):
+        return ("extra-bytes VLR identity", f"user id {v[0]!r} record id {v[1]} payload {len(v[3])} bytes for {len(described)} dimensions")
+    for d, got_d in zip(described, parse_descriptors(v[3])):
         e = expected_descriptor(d)
         what = None
         if got_d["type"] != e["type"]:
@@ -693,37 +972,62 @@ def check_state(shadow, sn, fmt):
     return None
 
 
+def extra_fields(sn, shadow):
+    return {bytes.fromhex(d["name"]).decode(): sn["fields"].get(bytes.fromhex(d["name"]).decode(), (0, 0, None))[2] for d in shadow}
+
+
 def oracle(h, snaps):
     """the property on the observed snapshots; returns list of (kind, step, text)"""
     out = []
-    shadow = []
+    shadow = [dict(d) for d in init_dims_of(h)]
     fmt = h["fmt"]
-    prev = snaps[0][1]
+    reg = None
+    status0, prev, aux0 = snaps[0]
+    how = " after the history of a sibling" if (h.get("sibling") or {}).get("when") == "older" else ""
+    built = "built by " + h.get("build", "header_record") + ": "
+    if status0 != "ok":
+        return [(f"construction{how} failed", -1, built + f"outcome {status0}")]
+    if aux0.get("sibling_setup"):
+        return [("sibling: add / remove failed", -1, aux0["sibling_setup"])]
     bad = check_state(shadow, prev, fmt)
+    if bad is None and h["npts"] and prev["bytes"] != bytes.fromhex(init_raw_of(h)):
+        bad = ("record bytes", "the points do not hold the bytes they were given")
     if bad:
-        return [("initial state: " + bad[0], -1, bad[1])]
+        return [(f"initial state{how}: " + bad[0], -1, built + bad[1])]
     for i, op in enumerate(h["ops"]):
-        status, sn = snaps[i + 1]
+        status, sn, aux = snaps[i + 1]
         k = op["op"]
         named = set()
         expect_err = False
+        new_reg = reg
+        new_fmt = fmt
         if k == "add":
             named = {bytes.fromhex(d["name"]).decode() for d in op["dims"]}
             new_shadow = shadow + op["dims"]
+            new_reg = None
         elif k == "remove":
             named = {bytes.fromhex(n).decode() for n in op["names"]}
             if remove_is_valid(shadow, op["names"]):
                 new_shadow = [d for d in shadow if d["name"] not in op["names"]]
+                new_reg = None
             else:
                 expect_err, new_shadow = True, shadow
         elif k == "assign":
             named = {bytes.fromhex(op["name"]).decode()}
             new_shadow = shadow
+        elif k == "convert":
+            new_shadow, new_reg, new_fmt = shadow, None, op["fmt"]
+        elif k == "reread":
+            new_shadow, new_reg = reread_effect(shadow, reg, op["keep"])
         else:
             new_shadow = shadow
         label = k + (" bad name " + op["bad"] if op.get("bad") else "")
         if k == "set_points":
             label = "whole-record assignment (" + op["source"] + ")"
+        if k == "reread":
+            label = "re-read of a file whose VLR registers " + ("nothing (no VLR)" if op["keep"] is None else "only the first dimensions")
+        if k == "roundtrip" and op.get("via") == "writer":
+            label = "roundtrip through laspy.open(mode='w')"
         if k == "set_points" and op.get("mismatch"):
             # a record of another format: refused, nothing changes (were it taken, header / VLR and record would disagree)
             if status.startswith("err:obtaining the record"):
@@ -743,8 +1047,9 @@ def oracle(h, snaps):
             if status != "ok":
                 out.append((f"{label} failed", i, f"outcome {status}"))
             # (I1) every dimension not named by the operation keeps its raw bytes in every record
+            std_now = std_dtype(fmt).names
             if k == "assign_std":
-                keep = [n for n in prev["names"] if n not in std_dtype(fmt).names]
+                keep = [n for n in prev["names"] if n not in std_now]
             elif k == "set_points":
                 keep = []            # every dimension is assigned
                 if status == "ok":
@@ -754,6 +1059,11 @@ def oracle(h, snaps):
                     if sn["vlrs"] != prev["vlrs"]:
                         out.append(("whole-record assignment changed the VLRs", i,
                                     f"{[(v[0], v[1], len(v[3])) for v in prev['vlrs']]} -> {[(v[0], v[1], len(v[3])) for v in sn['vlrs']]}"))
+            elif k == "convert":
+                keep = [n for n in prev["names"] if n not in std_now]          # the standard dimensions are C12's subject
+            elif k == "reread":
+                kept_names = {bytes.fromhex(d["name"]).decode() for d in new_shadow[:-1]} if new_shadow != shadow else None
+                keep = [n for n in prev["names"] if n in std_now or kept_names is None or n in kept_names]
             else:
                 keep = [n for n in prev["names"] if n not in named]
             for n in keep:
@@ -774,16 +1084,48 @@ def oracle(h, snaps):
                     out.append(("assignment does not read back", i, f"dimension {n!r}"))
             if k == "roundtrip" and status == "ok":
                 if sn["vlrs"] != prev["vlrs"]:
-                    out.append(("round trip changed the VLRs", i, f"{[(v[0], v[1], len(v[3])) for v in prev['vlrs']]} -> {[(v[0], v[1], len(v[3])) for v in sn['vlrs']]}"))
+                    out.append((f"{label} changed the VLRs", i, f"{[(v[0], v[1], len(v[3])) for v in prev['vlrs']]} -> {[(v[0], v[1], len(v[3])) for v in sn['vlrs']]}"))
                 if sn["bytes"] != prev["bytes"] or sn["names"] != prev["names"]:
-                    out.append(("round trip changed values", i, f"fields {prev['names'][-3:]} -> {sn['names'][-3:]}"))
-        shadow = new_shadow
-        bad = check_state(shadow, sn, fmt)
+                    out.append((f"{label} changed values", i, f"fields {prev['names'][-3:]} -> {sn['names'][-3:]}"))
+            if k == "reread" and status == "ok":
+                if sn["bytes"] != prev["bytes"] or sn["npts"] != prev["npts"]:
+                    out.append((f"{label}: the points do not keep their bytes", i, f"{prev['npts']} points of {prev['itemsize']} bytes -> {sn['npts']} of {sn['itemsize']}"))
+                other = lambda x: [v for v, c in zip(x["vlrs"], x["eb_class"]) if not c]      # noqa: E731
+                if other(sn) != other(prev):
+                    out.append((f"{label} changed the other VLRs", i, f"{len(other(prev))} -> {len(other(sn))}"))
+            if k == "convert" and status == "ok":
+                if aux.get("source_changed"):
+                    out.append(("convert modified its source", i, f"changed: {aux['source_changed']}"))
+                if aux.get("std_changed"):
+                    out.append(("convert: a standard dimension of both formats changed its values", i, f"{aux['std_changed']}"))
+                if sn["npts"] != prev["npts"]:
+                    out.append(("convert changed the number of points", i, f"{prev['npts']} -> {sn['npts']}"))
+                other = lambda x: [v for v, c in zip(x["vlrs"], x["eb_class"]) if not c]      # noqa: E731
+                if other(sn) != other(prev):
+                    out.append(("convert changed the other VLRs", i, f"{len(other(prev))} -> {len(other(sn))}"))
+        if out and k in ("convert", "reread"):
+            break
+        shadow, reg, fmt = new_shadow, new_reg, new_fmt
+        bad = check_state(shadow, sn, fmt, reg)
         if bad:
             out.append((f"{label}: {bad[0]}", i, bad[1]))
         prev = sn
         if out:
             break
+    sib = aux0.get("sibling")
+    if sib and not out:
+        before, after = sib
+        changed = [c for c in SNAP_KEYS if before[c] != after[c]]
+        if changed:
+            out.append(("another LasData built the same way changed during the history", len(h["ops"]), f"changed: {changed}; its extra dimensions "
+                        f"{[d['name'] for d in before['extras']]} -> {[d['name'] for d in after['extras']]}, record {before['itemsize']} -> {after['itemsize']} bytes, "
+                        f"point_format.size {before['pf_size']} -> {after['pf_size']}"))
+    if not out and aux0.get("fresh_after_err"):
+        out.append(("a LasData built the same way after the history cannot be made", len(h["ops"]), aux0["fresh_after_err"]))
+    if not out and aux0.get("fresh_after") is not None:
+        bad = check_state([dict(d) for d in init_dims_of(h)], aux0["fresh_after"], h["fmt"])
+        if bad:
+            out.append(("a LasData built the same way after the history does not start as constructed: " + bad[0], len(h["ops"]), bad[1]))
     return out
 
 
@@ -869,13 +1211,13 @@ def systematic(ctx, reserved):
         def remove_main(shadow, cur):
             return {"op": "remove", "names": [shadow[0]["name"]], "single": True}
 
-        hs.append(gen_history(rng, reserved, fmt=j % 11, steps=7, npts=npts,
+        hs.append(gen_history(rng, reserved, fmt=j % 11, steps=7, npts=npts, init=0,
                               plan=[add_main, assign_main, add_other, remove_other, rt, remove_main, rt]))
     for L in range(1, 33):
         def add_len(shadow, cur, L=L):
             return {"op": "add", "dims": [rand_dim(rng, set(), reserved, name_len=L, desc_len=L),
                                           rand_dim(rng, set(), reserved, name_len=33 - L, desc_len=32 - L)], "single": False}
-        hs.append(gen_history(rng, reserved, fmt=L % 11, steps=3, npts=L % 3, plan=[add_len, lambda s, c: {"op": "roundtrip"},
+        hs.append(gen_history(rng, reserved, fmt=L % 11, steps=3, npts=L % 3, init=0, plan=[add_len, lambda s, c: {"op": "roundtrip"},
                                                                                     lambda s, c: {"op": "remove", "names": [s[1]["name"]], "single": True}]))
     # whole-record assignment from every kind of source, followed by every kind of follow-up; records of another format
     j = 0
@@ -914,7 +1256,7 @@ def systematic(ctx, reserved):
 
                 tail = {"add": [add1], "remove": [rem1], "remove-all": [rem_all], "assign": [asg, add1], "add-remove": [add1, rem1, setp, rem1]}[follow]
                 plan = ([add2] if first else []) + [setp] + tail + [lambda s, c: {"op": "roundtrip"}]
-                hs.append(gen_history(rng, reserved, fmt=fmt, steps=len(plan), npts=[3, 1, 2, 5, 0][j % 5], plan=plan))
+                hs.append(gen_history(rng, reserved, fmt=fmt, steps=len(plan), npts=[3, 1, 2, 5, 0][j % 5], plan=plan, init=0))
     for j, mm in enumerate(MISMATCHES * 2):
         def add3(shadow, cur, j=j):
             used = set()
@@ -935,7 +1277,108 @@ def systematic(ctx, reserved):
             used = {bytes.fromhex(d["name"]).decode() for d in shadow}
             return {"op": "add", "dims": [rand_dim(rng, used, reserved)], "single": True}
 
-        hs.append(gen_history(rng, reserved, fmt=j % 11, steps=5, npts=[2, 0, 3][j % 3], plan=[add3, bad_setp, good_setp, add1b, lambda s, c: {"op": "roundtrip"}]))
+        hs.append(gen_history(rng, reserved, fmt=j % 11, steps=5, npts=[2, 0, 3][j % 3], init=0, plan=[add3, bad_setp, good_setp, add1b, lambda s, c: {"op": "roundtrip"}]))
+    hs.extend(systematic3(ctx, reserved))
+    return hs
+
+
+def systematic3(ctx, reserved):
+    """round 3: histories that start from a format with extra dimensions or from the argument-less constructors (with siblings),
+    conversions of every kind of dimension to every point format, files whose VLR registers only part of the extra bytes"""
+    rng = ctx.rng
+    hs = []
+
+    def rt(via="write"):
+        return lambda s, c: {"op": "roundtrip", "via": via}
+
+    def add_n(n, scaled=None, t=None):
+        def f(shadow, cur):
+            used = {bytes.fromhex(d["name"]).decode() for d in shadow}
+            ds = []
+            for i in range(n):
+                d = rand_dim(rng, used, reserved, t=t[i] if t else None, scaled=scaled)
+                used.add(bytes.fromhex(d["name"]).decode())
+                ds.append(d)
+            return {"op": "add", "dims": ds, "single": n == 1}
+        return f
+
+    def rem(which):
+        def f(shadow, cur):
+            if not shadow:
+                return None
+            names = [d["name"] for d in shadow] if which == "all" else [shadow[which % len(shadow)]["name"]]
+            return {"op": "remove", "names": names, "single": len(names) == 1, "as": "list"}
+        return f
+
+    def asg_all(shadow, cur):
+        if not shadow:
+            return None
+        d = rng.choice(shadow)
+        return {"op": "assign", "name": d["name"], "size": type_size(tuple(d["type"])), "raw": hx(rand_values(rng, tuple(d["type"]), d["scale"] is not None, cur))}
+
+    def safe_std(shadow, cur):
+        return lambda sh, c, curfmt, curver, reg: {"op": "assign_std", "size": std_dtype(curfmt).itemsize, "safe": True,
+                                                   "raw": hx(bytes(rng.choice(SAFE_STD) for _ in range(std_dtype(curfmt).itemsize * c)))}
+
+    def conv(g, explicit=False):
+        def f(shadow, cur):
+            def f2(sh, c, curfmt, curver, reg):
+                gg = curfmt if g is None else g
+                ver = rng.choice([v for v in lasio.VERSIONS if gg in lasio.COMPAT[v]]) if explicit else None
+                return {"op": "convert", "fmt": gg, "version": ver}
+            return f2
+        return f
+
+    def reread(keep, via="write"):
+        def f(shadow, cur):
+            def f2(sh, c, curfmt, curver, reg):
+                n_reg = len(sh) if reg is None else (0 if reg == "absent" else reg)
+                k_eff = 0 if keep is None else min(keep, n_reg)
+                kept, rest = sh[:k_eff], sh[k_eff:]
+                if rest and (any(d["name"] == hx(UNREG_NAME) for d in kept) or not 1 <= sum(type_size(tuple(d["type"])) for d in rest) <= 255):
+                    return None
+                return {"op": "reread", "keep": keep, "via": via}
+            return f2
+        return f
+
+    # (a) the LasData is made from a PointFormat that already has 1..3 extra dimensions; empty and short histories
+    j = 0
+    for build in ("header_fmt", "create_fmt"):
+        for init in (1, 2, 3):
+            for tail in ([], [rt("writer")], [add_n(1), rem(0)], [rem("all")], [asg_all, safe_std, conv(None if j % 2 else (j * 3) % 11)],
+                         [rem(1), add_n(2)], [reread(1)]):
+                j += 1
+                plan = list(tail)
+                hs.append(gen_history(rng, reserved, fmt=j % 11, steps=len(plan), npts=[2, 0, 1, 3][j % 4], plan=plan, build=build, init=init,
+                                      sibling=False if j % 5 else "older"))
+    # (b) the argument-less constructors, alone and next to a sibling built the same way
+    for build in ("default_create", "default_header"):
+        for sib in (False, "older", "younger"):
+            for tail in ([], [add_n(1)], [add_n(2), rem(0), rt()], [add_n(1), rem("all")]):
+                plan = list(tail)
+                hs.append(gen_history(rng, reserved, fmt=3, steps=len(plan), npts=[2, 0, 1][len(hs) % 3], plan=plan, build=build, sibling=sib))
+    # (c) conversion: every kind of dimension (1..3 elements scaled with distinct scales and offsets, unscaled, opaque) to every format
+    kinds = [[("s", 4)], [("s", 16)], [("s", 29)], [("s", 9), ("s", 12)], [("o", 7)], [("s", 1), ("o", 255), ("s", 30)]]
+    j = 0
+    for g in range(11):
+        for ki, ts in enumerate(kinds):
+            j += 1
+            sc = None if any(t[0] == "o" for t in ts) else (ki % 4 != 3)
+            plan = [add_n(len(ts), scaled=sc, t=ts), add_n(1), asg_all, safe_std, conv(g, explicit=(j % 3 == 0)), asg_all, add_n(1), rem(1),
+                    rt("writer" if j % 2 else "write"), safe_std, conv((g + 5 + ki) % 11), rem(0)]
+            hs.append(gen_history(rng, reserved, fmt=(g + ki) % 11, steps=len(plan), npts=[2, 1, 3, 0][j % 4], plan=plan, build=BUILDS[j % len(BUILDS)],
+                                  sibling=False))
+    # (d) a file whose extra-bytes VLR registers only the first k of 4 dimensions (un-registered rest of 1, 2, 3, 4.. bytes), or none
+    tails = [[("s", 1)], [("s", 3)], [("s", 21)], [("s", 5)], [("s", 2), ("s", 1)], [("o", 40)], [("s", 30), ("s", 7)]]
+    j = 0
+    for keep in (None, 0, 1, 2, 3, 4):
+        for ti, tl in enumerate(tails):
+            j += 1
+            head_t = [("s", 1 + (j * 7) % 30), ("s", 1 + (j * 11) % 30)]
+            follow = [[add_n(1)], [rem(-1)], [rt("writer"), add_n(1)], [safe_std, conv((j * 3) % 11)], [reread(0), rem(0)], [asg_all, reread(None), add_n(1)]][j % 6]
+            plan = [add_n(2, t=head_t), add_n(len(tl), scaled=False, t=tl), asg_all, asg_all, reread(keep, via="writer" if j % 3 == 0 else "write")] + follow
+            hs.append(gen_history(rng, reserved, fmt=j % 11, steps=len(plan), npts=[3, 1, 2, 0][j % 4], plan=plan, build=BUILDS[j % len(BUILDS)], init=1,
+                                  sibling=False))
     return hs
 
 
@@ -948,8 +1391,10 @@ def histories(ctx):
 
 
 def describe(h):
-    return [o["op"] + (":" + o["bad"] if o.get("bad") else "") + (":" + o["source"] if o.get("source") else "")
-            + (":other-format-" + o["mismatch"] if o.get("mismatch") else "") for o in h["ops"]]
+    return [h.get("build", "header_record") + f"[{len(init_dims_of(h))} dims" + (", sibling " + h["sibling"]["when"] if h.get("sibling") else "") + "]"] + [
+        o["op"] + (":" + o["bad"] if o.get("bad") else "") + (":" + o["source"] if o.get("source") else "")
+        + (":other-format-" + o["mismatch"] if o.get("mismatch") else "") + (f":to-{o['fmt']}" if o["op"] == "convert" else "")
+        + (f":keep-{o['keep']}" if o["op"] == "reread" else "") + (":writer" if o.get("via") == "writer" else "") for o in h["ops"]]
 
 
 def correspond(ctx):
@@ -967,30 +1412,60 @@ def correspond(ctx):
         "bad removals (standard name, unknown name, a name given twice, empty list; bad name before / in the middle of / after good ones). "
         "Plus a systematic family: every type scaled and unscaled and every opaque size through add, assign, add, remove, round trip, "
         "remove, round trip; every name/description length 1..32; every source of a whole-record assignment followed by add / remove / "
-        "remove all / assign+add / add, remove, assign again, remove; every kind of differing format. After every step point format, VLR payloads, all record bytes and the "
-        "raw values of each extra dimension are compared with the model. non-trivial = at least one successful add; distinct by the "
-        "canonical operation list (types, lengths, scaled flags, outcomes).")
+        "remove all / assign+add / add, remove, assign again, remove; every kind of differing format. "
+        "Round 3: the LasData is built from LasHeader(version, point_format=id) + record, from LasHeader(point_format=fmt) or "
+        "laspy.create(point_format=fmt) where fmt is a PointFormat that already carries 0..3 extra dimensions (points given their bytes), "
+        "from laspy.create(point_format=id), or from the argument-less laspy.create() / LasHeader() (format 3); foreign VLRs appended or "
+        "assigned through the vlrs setter; 15% (60% for the argument-less constructors) next to a sibling LasData built the same way, "
+        "either older (it got 2 dimensions, maybe lost one, before the LasData under test was made) or younger (made right after it): "
+        "the initial state must be as constructed and the sibling must not change. New steps: laspy.convert to a random point format "
+        "(8%; 30% with an explicit version; preceded by standard bytes every format can hold), round trips through "
+        "laspy.open(mode='w') + write_points in up to 3 chunks (1/3 of the round trips), re-reads of a file whose extra-bytes VLR was cut "
+        "to its first k descriptors or taken out (6%). Systematic: every build x 1..3 initial dimensions x {empty history, writer round "
+        "trip, add+remove, remove all, assign+convert, remove+add, truncated re-read}; argument-less constructors x {no, older, younger "
+        "sibling} x 4 histories; 11 target formats x 6 kinds of dimensions (1/2/3-element scaled, unscaled, opaque, mixed) through add, "
+        "assign, convert, assign, add, remove, round trip, convert again, remove; 6 cuts of the VLR (none, 0..4 descriptors) x 7 "
+        "un-registered tails (1, 2, 3, 4, 3, 40, 32 bytes) x 6 follow-ups (add / remove ExtraBytes / writer round trip + add / convert / "
+        "cut again + remove / assign + no VLR + add). After the construction and after every step point format, VLR payloads, all record "
+        "bytes and the raw values of each extra dimension are compared with the model (the standard block a conversion produces is taken "
+        "from the implementation: C12). non-trivial = at least one successful add or initial dimension; distinct by the "
+        "canonical construction + operation list (types, lengths, scaled flags, targets, cuts, outcomes).")
     hs = histories(ctx)
-    cmds = [model_cmd(h) for h in hs]
-    outs = common.run_model(cmds, name="c13")
-    dis = []
-    for h, mline in zip(hs, outs):
+    runs = []
+    for h in hs:
         snaps = run_impl(h)
+        observe_converted(h, snaps)      # the standard blocks a conversion produced are an input of the model's Convert (C12 decides them)
+        runs.append(snaps)
+    outs = common.run_model([model_cmd(h) for h in hs], name="c13")
+    dis = []
+    for h, snaps, mline in zip(hs, runs, outs):
         _RUNS.append((h, snaps))
-        ctx.traces += len(h["ops"])
-        canon = (h["fmt"], h["npts"], tuple((o["op"], o.get("bad"), tuple((tuple(d["type"]), d["scale"] is not None, len(d["name"]) // 2, len(d["desc"]) // 2) for d in o.get("dims", [])),
-                                            len(o.get("names", [])), o.get("source"), o.get("mismatch"), o.get("npts")) for o in h["ops"]), tuple(s[0] for s in snaps))
-        ctx.case(canon, nontrivial=any(o["op"] == "add" for o in h["ops"]),
+        ctx.traces += len(h["ops"]) + 1
+        canon = (h["fmt"], h["npts"], h.get("build"), (h.get("sibling") or {}).get("when"), h.get("vlr_install"),
+                 tuple((tuple(d["type"]), d["scale"] is not None) for d in init_dims_of(h)),
+                 tuple((o["op"], o.get("bad"), tuple((tuple(d["type"]), d["scale"] is not None, len(d["name"]) // 2, len(d["desc"]) // 2) for d in o.get("dims", [])),
+                        len(o.get("names", [])), o.get("source"), o.get("mismatch"), o.get("npts"), o.get("fmt"), o.get("keep"), o.get("via")) for o in h["ops"]),
+                 tuple(s[0] for s in snaps))
+        ctx.case(canon, nontrivial=any(o["op"] == "add" for o in h["ops"]) or bool(init_dims_of(h)),
                  sample={"format": h["fmt"], "points": h["npts"], "ops": describe(h), "outcomes": [s[0] for s in snaps[1:]]})
-        for o, s in zip(h["ops"], snaps[1:]):
+        ctx.count("build:" + h.get("build", "header_record") + (":" + str(min(len(init_dims_of(h)), 3)) + " initial dims" if init_dims_of(h) else ""))
+        if h.get("sibling"):
+            ctx.count("sibling:" + h["sibling"]["when"])
+        ctx.count("vlrs installed by " + h.get("vlr_install", "append"))
+        for o, sn in zip(h["ops"], snaps[1:]):
             ctx.count("op:" + o["op"] + (":bad-" + o["bad"] if o.get("bad") else "") + (":" + o["source"] if o.get("source") else "")
-                      + (":other-format" if o.get("mismatch") else ""))
+                      + (":other-format" if o.get("mismatch") else "") + (":writer" if o.get("via") == "writer" else "")
+                      + (":no-vlr" if o["op"] == "reread" and o["keep"] is None else ""))
             if o.get("mismatch"):
                 ctx.count("other format: " + o["mismatch"])
-            ctx.count("outcome:" + s[0])
+            if o["op"] == "convert":
+                ctx.count("convert:to format " + str(o["fmt"]) + (" explicit version" if o.get("version") else ""))
+            ctx.count("outcome:" + sn[0])
             for d in o.get("dims", []):
                 ctx.count("type:" + ("opaque" if d["type"][0] == "o" else "scaled" if d["scale"] else "plain"))
         ctx.count("final extra dims: " + str(min(len(snaps[-1][1]["extras"]), 4)) + ("+" if len(snaps[-1][1]["extras"]) >= 4 else ""))
+        if any(d["name"] == UNREG_NAME for d in snaps[-1][1]["extras"]):
+            ctx.count("final state has the reader's ExtraBytes dimension")
         for step, opk, comp, a, b in compare(h, snaps, mline):
             dis.append({"kind": f"{opk}: {comp}", "input": {"history": h, "step": step}, "model": a, "impl": b})
     # descriptor decoding
@@ -1021,7 +1496,7 @@ def search(ctx, seeds):
             if kind not in seen:
                 seen.add(kind)
                 failing.append({"kind": kind, "input": {"history": h, "step": step, "ops": describe(h)}, "observed": text})
-    return failing[:8]
+    return failing[:24]
 
 
 def replay(ctx, data):
